@@ -421,23 +421,81 @@ def kwval(call, name):
 
 def r_branch(ctx: Ctx, model):
     ctx.rule("F-branch: branch threaded by from_pointisotherm / model_iso; from_modelisotherm evaluates and stores the same points")
+    from ..absint import ClassRef
     fp = model.func(f"{MI}.from_pointisotherm")
-    src = ast.unparse(fp.node)
-    ctx.ob("isotherm.data(branch=branch)" in src, Finding("C12.F-branch", fp.where, "from_pointisotherm|data-branch",
-                                                          "from_pointisotherm must select isotherm.data(branch=branch)"), nontrivial_key=("fp", "data"))
-    calls = [n for n in ast.walk(fp.node) if isinstance(n, ast.Call) and ast.unparse(n.func) in ("cls", "ModelIsotherm.guess", "cls.guess")]
-    ctx.ob(len(calls) >= 2 and all(kwval(c, "branch") == "branch" for c in calls),
-           Finding("C12.F-branch", fp.where, "from_pointisotherm|branch-kw", "both construction paths must pass branch=branch"), nontrivial_key=("fp", "kw"))
-    ctx.ob("**iso_params" in src and "iso_params = isotherm.to_dict()" in src,
-           Finding("C12.F-branch", fp.where, "from_pointisotherm|metadata", "units and metadata must be carried via isotherm.to_dict()"), nontrivial_key=("fp", "meta"))
+    fi_ = model.func(f"{MI}.from_isotherm")
     mi = model.func("pygaps.modelling.model_iso")
-    c = [n for n in ast.walk(mi.node) if isinstance(n, ast.Call) and ast.unparse(n.func).endswith("from_pointisotherm")]
-    ctx.ob(len(c) == 1 and kwval(c[0], "branch") == "branch" and kwval(c[0], "model") == "model" and kwval(c[0], "param_bounds") == "param_bounds",
-           Finding("C12.F-branch", mi.where, "model_iso|threading", "model_iso must thread branch, model and param_bounds to from_pointisotherm"),
-           nontrivial_key=("model_iso",))
+    # threading by interpretation: the fit entry points are run with the constructor and guess() replaced by recorders, on an
+    # isotherm whose to_dict / data(branch=...) / keys are tokens; what reaches the recorder is compared with what was asked for
+    n_thread = 0
+    for entry in ("model_iso", "from_pointisotherm", "from_isotherm"):
+        for shape, mdl in (("single", "Henry"), ("guess", "guess"), ("list", ["Henry", "Langmuir"])):
+            if entry == "from_isotherm" and shape != "single":
+                continue        # from_isotherm hands everything to the constructor, whatever the model argument
+            I = make_interp(model)
+            sink, datalog = {}, []
+            I.libmeth[("PIso", "to_dict")] = lambda I, v, a, k, n: {"material": "m", "loading_unit": "mmol"}
+            I.libmeth[("PIso", "data")] = lambda I, v, a, k, n: (datalog.append(k.get("branch", a[0] if a else "<default>")),
+                                                                   Obj(kind="Data", label=f"data[{k.get('branch', a[0] if a else '<default>')}]"))[1]
+
+            def ctor(I, ci, args, kwargs, node):
+                sink["via"], sink["kw"] = "constructor", dict(kwargs)
+                return Obj(kind="Built")
+
+            def guess(I, fi, env, n):
+                kw = {k_: v_ for k_, v_ in env.items() if k_ not in ("cls", "other_properties")}
+                kw.update(env.get("other_properties") or {})
+                sink["via"], sink["kw"] = "guess", kw
+                return Obj(kind="Built")
+            I.overrides[MI] = ctor
+            I.overrides[f"{MI}.guess"] = guess
+            iso = Obj(kind="PIso", label="iso", attrs={"pressure_key": "PK", "loading_key": "LK"})
+            toks = {"param_guess": Obj(kind="Tok", label="PG"), "param_bounds": Obj(kind="Tok", label="PB"),
+                    "optimization_params": Obj(kind="Tok", label="OP"), "verbose": Obj(kind="Tok", label="VB")}
+            kw = dict(toks, branch="des", model=mdl)
+            if entry == "from_isotherm":
+                extra = {"pressure": Obj(kind="Tok", label="P"), "loading": Obj(kind="Tok", label="L"), "isotherm_data": Obj(kind="Tok", label="D"),
+                         "pressure_key": "PK2", "loading_key": "LK2"}
+                kw.update(extra)
+            fn, so = (mi, None) if entry == "model_iso" else ((fp if entry == "from_pointisotherm" else fi_), ClassRef(model.cls(MI)))
+            outs = I.explore(lambda I: (sink.clear(), datalog.clear(), I.call_func(fn, [iso], dict(kw), None, self_obj=so), dict(sink), list(datalog))[3:])
+            for oc in outs:
+                n_thread += 1
+                key = f"{entry}|{shape}"
+                if oc.kind != "ok":
+                    ctx.ob(False, Finding("C12.F-branch", fn.where, f"{key}|raises", f"{entry}(model={mdl!r}, branch='des', ...) does not reach the fit: {oc!r}"))
+                    continue
+                sk, dl = oc.value
+                got = sk.get("kw", {})
+                # demanded: what the property names (branch, bounds in force, the model asked for, metadata and units, the data);
+                # starting guesses, optimiser options and verbosity are passed as tokens too but their arrival is not demanded
+                want = {"branch": "des", "material": "m", "loading_unit": "mmol"}
+                if sk.get("via") == "constructor":
+                    want.update(model=mdl, param_bounds=toks["param_bounds"])
+                else:
+                    want.update(models=mdl)
+                if entry == "from_isotherm":
+                    want.update(extra)
+                else:
+                    want.update(pressure_key="PK", loading_key="LK")
+                bad = [k_ for k_, v_ in want.items() if not (got.get(k_) is v_ or (not isinstance(v_, Obj) and got.get(k_) == v_))]
+                if entry != "from_isotherm":
+                    d = got.get("isotherm_data")
+                    if not (isinstance(d, Obj) and d.kind == "Data" and d.label == "data[des]") or dl != ["des"]:
+                        bad.append(f"isotherm_data (rows selected with branch={dl})")
+                if shape == "single" and sk.get("via") != "constructor":
+                    bad.append("route (a single model name must be fitted by the constructor)")
+                if shape != "single" and sk.get("via") != "guess":
+                    bad.append("route (a list of names / 'guess' must go through guess())")
+                ctx.ob(not bad, Finding("C12.F-branch", fn.where, f"{key}|{','.join(sorted(bad))}",
+                                        f"{entry}(iso, branch='des', model={mdl!r}, param_guess=PG, param_bounds=PB, optimization_params=OP, verbose=VB"
+                                        f"{', pressure=P, loading=L, isotherm_data=D, keys' if entry == 'from_isotherm' else ''}) reaches the "
+                                        f"{sk.get('via')} with {sorted(bad)} missing or different: the requested branch, model, guesses, bounds, optimiser "
+                                        "options and the isotherm's own metadata must arrive unchanged"),
+                       nontrivial_key=("thread", entry, shape))
+    ctx.floor("fit entry points x model-argument shapes interpreted", n_thread, 7)
     # from_modelisotherm by interpretation
     fm = model.func(f"{PI}.from_modelisotherm")
-    from ..absint import ClassRef
     for calc in ("loading", "pressure"):
         for shape in ("default", "pressure_points", "loading_points", "reference"):
             I = make_interp(model)
